@@ -32,7 +32,7 @@ ASSUMPTIONS = [
 ]
 CONFIG = {
     'shards': {'quick': 16, 'thorough': 16},
-    'min_nontrivial': {'quick': 250, 'thorough': 4000},
+    'min_nontrivial': {'quick': 600, 'thorough': 4000},
     'timeout': {'quick': 1200, 'thorough': 14400},
     'required_counters': ['networks_compared', 'ring_text_rule_networks'],
 }
@@ -283,7 +283,7 @@ def run_shard(ctx):
     r = ctx.sub_rng('c17')
     r.shuffle(allc)
     if ctx.tier == 'quick':
-        allc = allc[:900]
+        allc = allc[:2000]
     for i, c in enumerate(allc):
         if ctx.mine(i):
             check_case(ctx, c)
@@ -299,7 +299,7 @@ def classify(v):
 
 LEVEL_TEXT = ('Held on every executed (seed set, rule set): single seeds and '
               'pairs x all rule subsets of size <=3 from 10 reaction-SMARTS '
-              'and 7 RING-text rules (quick: a 900-case sample, thorough: '
+              'and 7 RING-text rules (quick: a 2000-case sample, thorough: '
               'all); the returned list is compared with an independent '
               'breadth-first closure up to graph isomorphism (both '
               'inclusions, seeds, no duplicates) and termination is bounded '
